@@ -117,7 +117,9 @@ def run(ctx):
         nd = rng.randint(1, 5)
         alphabet = "0ab2" if fidx % 3 else "0ab2xA1 "
         dets = [(rng.randint(-64, 64) / 64.0, "".join(rng.choice(alphabet) for _ in range(norb))) for _ in range(nd)]
-        path = os.path.join(ctx.work, f"dets_{fidx}.bin")
+        # the same path is rewritten every time (the usual "dets.bin" regenerated for the next system): a read must return
+        # what is in the file now
+        path = os.path.join(ctx.work, "dets.bin")
         write_dets(path, norb, dets)
         try:
             norbs, state, ndall = pyscf_interface.read_dets(path)
